@@ -3,7 +3,7 @@ import json, os, sys
 from fractions import Fraction as F
 from lib import *
 import searchcommon as sc
-from configs import cfg
+from configs import cfg, steep_cfg
 
 TOL = 1e-3     # sizing tolerance named by the properties
 
@@ -133,7 +133,7 @@ def oracle_c01(chk, c, o):
     return 1
 
 
-def run_search_check(chk, which, props_file, e2e_cfgs, e2e_oracle):
+def run_search_check(chk, which, props_file, e2e_cfgs, e2e_oracle, extra=None):
     quick = chk.tier == "quick"
     chk.build(props_file, extra=["Model/Search", "Model/SearchCases"])
     rng = chk.rng
@@ -180,6 +180,10 @@ def run_search_check(chk, which, props_file, e2e_cfgs, e2e_oracle):
                 continue
             e2e_oracle(chk, r)
         chk.cov["end_to_end_runs"] = len(rs)
+        chk.cov["end_to_end_designs"] = [{"method": r["cfg"]["geometric_constraints"]["method"], "ok": r.get("ok"), "exc": r.get("exc"), "nbh": r.get("nbh"), "H": r.get("H"),
+                                          "excess_at_H": r.get("resim_excess")} for r in rs]
+    if extra is not None:
+        extra(chk)
     chk.cov["trusted_base"] = ["section-free hypotheses visible in the theorem statements: brentq contract (returns a point of the bracket with |objective| <= eps), "
                                "agreement of the sizing objective with the search oracle at the bracket ends (both measured on every end-to-end run)",
                                "stub harness tools/impl/search_stub.py (object.__new__ + attribute injection on the real classes)"]
